@@ -207,7 +207,7 @@ def run(ctx):
     drv = ctx.build_driver("c03")
     hb = ctx.build_harness("c03", "release")
     if hb and drv:
-        n = 300 if quick else 3000
+        n = 300 if quick else 8000
         rc, out, _ = vcheck.sh([hb, "corr", str(ctx.seed), str(n)], timeout=900)
         lines = out.split("\n")
         ctx.correspondence("event-log+trailing-bytes-policy:release", lines, drv, timeout=900)
@@ -222,7 +222,7 @@ def run(ctx):
         ctx.notes["corr"] = {"cases": n, "distinct_shapes": len(shapes), "policy_lines": sum(1 for l in lines if l.startswith("policy ")),
                              "configuration_classes": meta.get("#classes")}
     if hb:
-        n_cfg, maxb = (6, 2500) if quick else (40, 6000)
+        n_cfg, maxb = (6, 2500) if quick else (120, 8000)
         if ctx.broken():
             n_cfg *= 2
         _falsify(ctx, hb, n_cfg, maxb)
